@@ -1297,7 +1297,7 @@ class _Subst(ast.NodeTransformer):
         return n
 
 
-def _helper_instance(helper, call, caller_names: set, is_method: bool, site_targets=None):
+def _helper_instance(helper, call, caller_names: set, is_method: bool, site_targets=None, site_in_try: bool = True):
     """(prologue statements, body statements) of the helper specialised for the call, or None."""
     a = helper.args
     if a.vararg or a.kwarg or a.kwonlyargs or a.posonlyargs or any(isinstance(x, ast.Starred) for x in call.args) or any(k.arg is None for k in call.keywords):
@@ -1360,6 +1360,11 @@ def _helper_instance(helper, call, caller_names: set, is_method: bool, site_targ
         names = [names_map[n] for n in names]
         stored = {ret_names.get(n, n) for n in stored}
     keep = set(site_targets or ()) if ret_names else set()
+    if site_targets and not site_in_try:
+        # parameters rebound by the helper whose argument is a target of the call statement keep that name (see below)
+        for n_, v_ in bound.items():
+            if n_ in stored and isinstance(v_, ast.Name) and v_.id in site_targets and v_.id == n_:
+                keep.add(n_)
     # helper locals that clash with the caller's names are renamed
     ren = {}
     for nm in sorted(stored):
@@ -1383,6 +1388,13 @@ def _helper_instance(helper, call, caller_names: set, is_method: bool, site_targ
             mapping[n] = v
         elif n in stored and isinstance(v, ast.Name) and v.id == n and n in keep:
             pass      # `data = helper(data)`: the parameter is the caller's variable, rebound by the call's result anyway
+        elif n in stored and isinstance(v, ast.Name) and site_targets and v.id in site_targets and not site_in_try and (v.id == n or v.id not in {x.id for x in ast.walk(holder) if isinstance(x, ast.Name)}):
+            # `a, b = helper(a, ...)`: a is overwritten by the call anyway and nothing can observe it in between (the call is not in a
+            # try body of the caller): the helper's working copy of the parameter is a itself
+            if v.id != n:
+                for x in ast.walk(holder):
+                    if isinstance(x, ast.Name) and x.id == n:
+                        x.id = v.id
         else:
             k = n
             while k in caller_names:
@@ -1476,7 +1488,8 @@ def inline_helpers(tree: ast.Module, known_paths: set, functions) -> int:
                             tgs = tg.elts if isinstance(tg, ast.Tuple) else [tg]
                             if all(isinstance(x, ast.Name) for x in tgs):
                                 site_targets = [x.id for x in tgs]
-                        inst = _helper_instance(h, c, caller_names, is_m, site_targets)
+                        in_try = any(isinstance(t_, ast.Try) and any(any(z is st for z in ast.walk(b_)) for b_ in t_.body) for t_ in ast.walk(caller))
+                        inst = _helper_instance(h, c, caller_names, is_m, site_targets, in_try)
                         if inst is None:
                             continue
                         prologue, body = inst
